@@ -167,6 +167,9 @@ def shard(ctx):
                 run_case(ctx, {"input": s, "frag": frag, "container": cont})
                 ctx.count("directed_cases")
     from .. import gen
+    for q in gen.token_sequences(ctx, 3, 3, 0.4):
+        run_case(ctx, {"input": q, "frag": False, "container": None})
+        ctx.count("sequence_cases")
     n, idx = 0, ctx.i
     limit = (240000 if ctx.tier == "quick" else 3000000) // ctx.n
     t_end = time.time() + ctx.time_left()
@@ -187,6 +190,8 @@ def replay(ctx, case):
 
 
 def finalize(m, v):
+    from .. import gen as _gen
+    _gen.sequences_inconclusive(m)
     c = m["counters"]
     for key in ("streams:etree:document", "streams:etree:root-element", "streams:etree:fragment",
                 "streams:dom:document", "streams:dom:root-element", "streams:dom:fragment"):
